@@ -384,4 +384,16 @@ example : (exec true 3 (run true 3 [] [.open 0 1 .O .none .none, .open 0 2 .I .n
 example : (exec true 3 (run true 3 [] [.open 0 1 .O .none .none, .open 0 2 .R .none .none,
     .open 0 3 .R .none .none, .lock 2 (some 2) (some 3)]) (.get 3 (some 4))).2 = 0 := by decide
 
+/-! Fractional record numbers (seed C26d): LOCK/UNLOCK bounds and GET/PUT positions are rounded by the
+same `roundHalfEven`, so `2.5` is record 2 and `6.5` record 6 for both. -/
+theorem roundHalfEven_int (n : Nat) : roundHalfEven n 1 = n := by
+  simp [roundHalfEven, Nat.mod_one]
+theorem roundHalfEven_half (k : Nat) :
+    roundHalfEven (2 * k + 1) 2 = if k % 2 = 0 then k else k + 1 := by
+  have h1 : (2 * k + 1) / 2 = k := by omega
+  have h2 : (2 * k + 1) % 2 = 1 := by omega
+  simp [roundHalfEven, h1, h2]
+example : roundHalfEven 5 2 = 2 ∧ roundHalfEven 7 2 = 4 ∧ roundHalfEven 1 2 = 0 ∧ roundHalfEven 13 2 = 6 ∧
+    roundHalfEven 249 100 = 2 ∧ roundHalfEven 251 100 = 3 ∧ roundHalfEven 51 100 = 1 := by decide
+
 end PcbV.C26
